@@ -57,6 +57,7 @@ class Proc(object):
         self.die_at = None         # (virtual time, status) of a death already decided
         self.on_death = None
         self.signals = []          # log of delivered kill() calls
+        self.handlers = {}         # signal -> callable (caught signals)
 
     def alive(self):
         return self.state in ('running', 'stopped')
@@ -101,6 +102,9 @@ class ProcSim(object):
         return min(ts) if ts else None
 
     def _deliver(self, p, sig):
+        if sig in p.handlers and sig not in (signal.SIGKILL, signal.SIGSTOP) and p.state == 'running':
+            p.handlers[sig](sig)          # the child catches the signal (e.g. a REPL on SIGINT)
+            return
         if sig in p.ignore and sig not in (signal.SIGKILL, signal.SIGSTOP):
             return
         if sig == signal.SIGKILL:
@@ -183,6 +187,7 @@ class Env(object):
         global ENV
         self.ch = ch
         CLOCK.reset(tick)
+        CLOCK.virtual = True
         CLOCK.sleep_hook = self.on_sleep
         self.t0 = CLOCK.now
         self.procs = ProcSim(self)
@@ -226,6 +231,7 @@ class Env(object):
         global ENV
         ENV = None
         CLOCK.sleep_hook = None
+        CLOCK.virtual = False      # outside an execution the library talks to real processes in real time
         for fd in list(self.fds):
             try:
                 _os.close(fd)
@@ -743,6 +749,7 @@ def install():
     import pexpect.pxssh
     import pexpect.socket_pexpect
     import ptyprocess.ptyprocess
+    CLOCK.virtual = ENV is not None
     pexpect.expect.time = CLOCK
     pexpect.spawnbase.os = OSP
     pexpect.pty_spawn.os = OSP
